@@ -39,6 +39,15 @@ func ens_maskBytes(pos int, b []byte, ret0 int) bool { return ret0 == (pos+len(b
 //@ lock-chan mu
 //@ shared conn.Write guarded_by mu C15.guarded
 
+// the close-sent/failed latch is shared with the other goroutines: whatever this goroutine knew about it is void at
+// every lock acquisition; the only thing the others (and we) ever do to it is set it once
+//@ interference writeErr
+func rely_writeErr(old, new error) bool { return old == nil || new == old }
+
+// a transport write happens only after the latch was seen clear inside the same critical section
+//@ at-invoke conn.Write C15.latch.clear-at-write
+func atinvoke_connWrite(c *Conn) bool { return c.writeErr == nil }
+
 func prim_chanheld(ch chan bool) bool { return false } // ghost lock-set membership; not observable at run time
 
 func ghost_wr_len(w io.Writer) int        { panic("ghost") }
